@@ -24,7 +24,7 @@ import Tahoe.Generated.Mutpublish
     | the boundary merge inside the updater (old prefix/suffix of the boundary segments, publisher's segment lengths; agreement of `_do_update_update` and `setup_encoding_parameters` on start/end segments) | `transforming_read_correct`, `updater_and_publisher_agree` |
     | quantifier "every server response ordering" (schedules) | correspondence only: the model abstracts publish/servermap networking ("publish succeeded ⇒ shares hold the version", C47/C11); the harness runs every history under a seeded random/fifo/lifo delivery order |
     | hash-tree reshaping at power-of-two segment counts, FEC, AES, share layout | correspondence only (reads on the grid validate block/share hash trees and decode real shares); the model keeps per-segment plaintext and the decoder's padding only |
-    | which of the two fetched boundary segments is `_start` and which is `_end` (`ServermapUpdater._got_results` / `_got_update_results_one_share` → `update_data` → `_decode_and_decrypt_segments`) | the model's `mdmfUpdate` hands `decodeBlocks … start_segment` / `… end_segment` to `TU.init` in that order (arithmetic of the pair: `updater_and_publisher_agree`); that the code pairs them the same way is tied by correspondence only: fixed corpus of 22/35/33-segment MDMF files with (start_segment, end_segment) ∈ {7,8}, {5,8}, {1,8}, {6,9}, {15,16}, {8,15}, {16,17}, {0,20}, {3,4} (writes starting and ending off a boundary before EOF) plus a random many-segment family |
+    | which of the two fetched boundary segments is `_start` and which is `_end` (`ServermapUpdater._got_results` → `_got_update_results_one_share` → `ServerMap.update_data` → `_decode_and_decrypt_segments` → `Retrieve.decode`) | `boundary_segments_paired` (the modelled step: `fetchShare`, `gotUpdateResults`, `recordUpdate`, `selectDatum`, `boundaryMaps`, `decodeFetched`; `mdmfUpdate` now goes through it, so `update_is_splice` / `history_refines_bytes` depend on it), arithmetic of the pair: `updater_and_publisher_agree`. Tie: driver op `ud` against the real `_got_update_results_one_share` + `_decode_and_decrypt_segments` + `Retrieve.decode` on real zfec blocks (entries in arrival order, stale versions, duplicates, conflicts, too few shares), and the order of the gathered list in `_got_results` by the many-segment corpus histories (pairs {7,8}, {5,8}, {1,8}, {6,9}, {15,16}, …). Not modelled: block hashes / salts, shares answering with different versions at once |
     | operations through a reused `MutableFileVersion` object (`mv = get_best_mutable_version(); mv.update(..); mv.update(..)`, also mixed with `mv.overwrite/modify/read`) | modelled as: a version object is only a handle to the node; every operation of a history (`Op`, `step`, `run`) applies to the node's **current** best version, which is what the code does since 6586d18 (`_update` re-pins `self._version` to the version the previous publish through the object recorded; overwrite/modify always use the object's updated servermap). So `history_refines_bytes` / `history_reads_refine` are the claim for reused objects too; the handle itself (its cached servermap) is not in the model. Tie: histories with `pin`/`held` ops are run on the real code and map to the same driver tokens as operations through fresh objects. Monitor + correspondence only: reads *through* the reused object (a pinned version: may show any content since the pin, or refuse with KeyError), and an object overtaken by a change made through another object (the code refuses with UncoordinatedWriteError / IndexError / AssertionError depending on its cached servermap; monitored, not compared) |
     | stale `node.get_size()` (the defect repaired by the fix diff) | monitor + correspondence (the model has no node-level cache: it takes the length from the version, as the repaired code does) | -/
 namespace Tahoe.C09
@@ -198,6 +198,43 @@ example : (pubEndSegment 11 4 8 + 1 - ((4 / 4 : Nat) : Int)).toNat = 1
     ∧ updateRange 11 4 3 7 = (0, 2)
     ∧ pushLoop TU.read 3 4 3 0 3 (TU.init [100, 101, 102, 103, 104, 105, 106] 3 4 [1, 2, 3, 4] [9, 10, 11])
         = some [[1, 2, 3, 100], [101, 102, 103, 104], [105, 106, 11]] := ⟨by decide, by decide, by decide, by decide⟩
+
+/-- **The servermap-to-Retrieve step hands the updater its two boundary segments, start first.**
+    For any set of ≥ k distinct shares answering the MODE_WRITE servermap update with an update range
+    (`_got_results`: `[verinfo, blockhashes, block(start_segment), block(end_segment)]`, recorded by
+    `_got_update_results_one_share` into `update_data`), `_decode_and_decrypt_segments` (select the entry of the
+    object's version per share, build the start/end block dicts, `Retrieve.decode` each with its segment number)
+    yields exactly the old plaintext of `start_segment` and of `end_segment`, in that order — for every file,
+    segment size, `k`, and pair of existing segments (`end_segment = -1`, the zero-length write at 0, gives an
+    unused empty end segment). -/
+theorem boundary_segments_paired (shares : List Nat) (content : Bytes) (seg k s : Nat) (e : Int)
+    (hnd : shares.Nodup) (hk0 : 0 < k) (hk : k ≤ shares.length) (hseg : 0 < seg)
+    (hs : s < numSegments content.length seg) (he : e < (numSegments content.length seg : Int)) :
+    boundarySegmentsFrom shares content seg k s e
+      = .ok (segmentOf content seg s, if e < 0 then [] else segmentOf content seg e.toNat) := by
+  rw [boundarySegmentsFrom_spec shares content seg k s e hnd hk0 hk]
+  have hlen : content.length ≠ 0 := by
+    intro h0; rw [h0] at hs; simp [numSegments, divCeil] at hs
+  rw [if_neg hlen, if_neg (fun hneg => hneg ⟨hs, he⟩), decodeBlocks_eq content seg k s hseg hs]
+  by_cases hneg : e < 0
+  · rw [if_pos hneg, if_pos hneg]
+  · rw [if_neg hneg, if_neg hneg, decodeBlocks_eq content seg k e.toNat hseg (by omega)]
+
+-- 10 four-byte segments, the pair (7, 8) (segment numbers that wrap mod 8), shares answering in the order 2, 0, 1
+example : boundarySegmentsFrom [2, 0, 1] (List.range 38 |>.map UInt8.ofNat) 4 2 7 8
+    = .ok ([28, 29, 30, 31], [32, 33, 34, 35]) := rfl
+-- what a swapped pair would do (block of segment 8 decoded as segment 7): the wrong old bytes, silently
+example : decodeFetched (List.range 38 |>.map UInt8.ofNat) 4 2 [(0, .block 8), (1, .block 8)] 7
+    = .ok [32, 33, 34, 35] := rfl
+-- outside the hypotheses the code refuses: start segment beyond the file (IndexError), fewer than k shares
+-- (AssertionError), two different entries of the same version for one share (AssertionError)
+example : boundarySegmentsFrom [0, 1] [1, 2, 3, 4, 5, 6, 7, 8] 4 2 2 2 = .error .index
+    ∧ boundarySegmentsFrom [0] [1, 2, 3, 4, 5, 6, 7, 8] 4 2 0 1 = .error .assertion
+    ∧ selectDatum (.verinfo 1) [(.verinfo 1, (.blockhashes, .block 0, .block 1)),
+        (.verinfo 1, (.blockhashes, .block 1, .block 1))] = .error .assertion
+    -- an older version's entry in a reused servermap is skipped
+    ∧ selectDatum (.verinfo 1) [(.verinfo 0, (.blockhashes, .block 5, .block 6)),
+        (.verinfo 1, (.blockhashes, .block 0, .block 1))] = .ok (.blockhashes, .block 0, .block 1) := ⟨rfl, rfl, rfl, rfl⟩
 
 /-- **read(offset, size) is the slice.**  `MutableFileVersion.read(consumer, offset, size)` of a valid
     range returns `content[offset : offset+size]`, whatever the segment size (Retrieve's
